@@ -843,6 +843,15 @@ def corpus_cases():
 
 
 INT_MAX, INT_MIN = 2147483647, -2147483648
+# which oracle signatures are failing inputs for the clause a generated-tie theorem is about
+OBLIGATION_ORACLE = {
+    'C12_gen_NeedObj': r'select:|run:abnormal', 'C12_gen_resulting_nobj': r'select:', 'C12_gen_resulting_obj_index': r'select:|run:abnormal',
+    'C12_gen_OnHeader_check': r'reject:', 'C12_gen_skel_OnHeader': r'reject:|select:|echo:',
+    'C12_gen_objno_specified': r'select:|reject:|echo:', 'C12_gen_is_objno_specified': r'reject:|select:', 'C12_gen_multiobj': r'select:',
+    'C12_gen_objno_used': r'echo:|name:', 'C12_gen_SetObjNo': r'reject:|select:', 'C12_gen_notify': r'echo:|name:',
+    'C12_gen_handler_overrides': r'select:|reject:|echo:', 'C12_gen_skel_builder_OnHeader': r'select:|echo:|name:',
+    'C12_gen_skel_obj_events': r'select:|echo:|name:',
+}
 
 
 def gen_crosscheck(ck, drv, trdir):
@@ -1065,11 +1074,22 @@ def run(ck):
                 ck.add_violation('memory:sanitized-run-differs', 'sanitized and plain builds disagree on the outcome class', c.replay_obj(), found_input=False)
         ck.cov['sanitized_runs'] = nsan
         ck.log('%d cases re-run under ASan/UBSan' % nsan)
-    # ---- proof obligations that no longer check
+    # ---- proof obligations that no longer check: if the search above produced a failing input for the clause the
+    #      theorem is about, the obligation is named in that violation; otherwise it is reported on its own
     if not proof_ok:
         for fdecl in failing:
-            ck.add_violation('obligation:%s' % fdecl.split(' ')[0], 'proof obligation no longer checks: %s' % fdecl,
-                             {'theorem': fdecl, 'module': 'MpVerif.C12.Props', 'searched': '%d implementation cases' % len(cases)}, found_input=False)
+            name = fdecl.split(' ')[0]
+            pat = OBLIGATION_ORACLE.get(name)
+            hit = None
+            if pat:
+                hit = next((v for v in ck.violations if v['found_input'] and re.match(pat, v['sig'])), None)
+            if hit is not None:
+                hit['replay'].setdefault('broken_obligations', []).append(name)
+                if 'proof obligation' not in hit['what']:
+                    hit['what'] += '  [proof obligation(s) that no longer check: see replay.broken_obligations]'
+                continue
+            ck.add_violation('obligation:%s' % name, 'proof obligation no longer checks: %s' % fdecl,
+                             {'theorem': fdecl, 'module': 'MpVerif.C12.Props', 'searched': '%d implementation cases, none violates the clause this theorem is about' % len(cases)}, found_input=False)
     ck.cov['evaluations'] = len(cases) + len([1 for t in extra_runs if t[0] == 'reduced'])
     ck.cov['traces_validated_against_impl'] = stats['cmp']
     distinct = len({(hashlib.sha1(c.text.encode()).hexdigest(), c.binary, tuple(c.optlist)) for c in cases})
